@@ -186,13 +186,14 @@ func genC26(t *rapid.T) c26Case {
 		}
 		k := rapid.IntRange(rate+1, 2*rate+6).Draw(t, "burstk")
 		callers := listed[:rapid.IntRange(1, len(listed)).Draw(t, "burstcallers")]
-		idle := rapid.IntRange(0, 999).Draw(t, "idle")%50 == 17 // rare: costs 1.05 s of real time
+		idle := rapid.IntRange(0, 999).Draw(t, "idle")%25 == 17 // rare: costs 1-3 s of real time
 		for i := 0; i < k*len(callers); i++ {
 			cred, marker := c26GenCred(t, "opaque")
 			r := c26Req{Caller: callers[i%len(callers)], Cred: cred, Marker: marker, Body: "plain",
 				Resolver: []string{"unresolved", "identity"}[rapid.IntRange(0, 1).Draw(t, "burstres")]}
 			if i == 0 && idle {
-				r.SleepMs = 1050
+				// one, two or three whole windows of silence
+				r.SleepMs = []int{1050, 2100, 3100}[rapid.IntRange(0, 2).Draw(t, "idlems")]
 			}
 			c.Reqs = append(c.Reqs, r)
 		}
@@ -408,8 +409,8 @@ func runC26(c c26Case) (out lib.Outcome) {
 
 	for i, r := range c.Reqs {
 		if r.SleepMs > 0 {
-			if r.SleepMs > 1200 {
-				r.SleepMs = 1200
+			if r.SleepMs > 3200 {
+				r.SleepMs = 3200
 			}
 			time.Sleep(time.Duration(r.SleepMs) * time.Millisecond)
 		}
@@ -713,7 +714,7 @@ func c26Class(r c26Req) string {
 
 var propC26 = lib.Prop[c26Case]{
 	ID: "C26",
-	Rule: "per case a fresh HttpServer (enabled 9/10; allowlists incl. blank-only; rate 1/2/3/5/default; prefix) and 1-10 introspection requests (+ optional back-to-back burst of rate+1..2*rate+6 requests per listed caller, 1 in 40 bursts after 1.05 s of idleness): callers anonymous / authenticated-unlisted (case, space, NUL variants) / named-but-unauthenticated / rejected by the authenticator / listed; credentials opaque, dotted-non-JWS, JWS-shaped (6 shapes incl. empty signature and multi-KB), 4095/4096/4097+ chars, unicode up to 5000 runes; bodies plain/extra fields/fully \\u-escaped, ambiguous (upper-case key, duplicate keys, >8 KiB padding, BOM, trailing data), 13 wrong shapes; with and without Content-Length; resolver outcomes identity(+ttl)/unresolved/error/AuthUnavailable. slog default replaced by a buffer. " +
+	Rule: "per case a fresh HttpServer (enabled 9/10; allowlists incl. blank-only; rate 1/2/3/5/default; prefix) and 1-10 introspection requests (+ optional back-to-back burst of rate+1..2*rate+6 requests per listed caller, 1 in 25 bursts after 1.05 / 2.1 / 3.1 s of idleness): callers anonymous / authenticated-unlisted (case, space, NUL variants) / named-but-unauthenticated / rejected by the authenticator / listed; credentials opaque, dotted-non-JWS, JWS-shaped (6 shapes incl. empty signature and multi-KB), 4095/4096/4097+ chars, unicode up to 5000 runes; bodies plain/extra fields/fully \\u-escaped, ambiguous (upper-case key, duplicate keys, >8 KiB padding, BOM, trailing data), 13 wrong shapes; with and without Content-Length; resolver outcomes identity(+ttl)/unresolved/error/AuthUnavailable. slog default replaced by a buffer. " +
 		"Non-trivial: an allowlisted caller presenting a JWS-shaped or over-limit credential.",
 	Gen:          genC26,
 	Run:          runC26,
